@@ -712,10 +712,10 @@ PROPS = {
     'C12': P(gen_pairs('c12', second='names'), 'Proved in Coq for all inputs (Props/C12.v): file_name is the last component when it is a normal name and absent otherwise (both encodings); stem, a dot and the extension reproduce the name when an extension exists and the stem is the whole name otherwise; the four documented cases of the split; Unix replacement by a single valid name n: the components are the old ones with the last replaced by n, so the file name is n and the parent is the old parent, and without a file name the result is the old path joined with n. The Windows replacement is decided by oracle_c12 on every explored (path, name) pair.', NOTE_CORR),
     'C13': P(gen_c13, 'Proved in Coq for all Unix buffers and extensions (Props/C13.v): without a file name the call returns false and leaves the buffer untouched; with a file name it returns true and the bytes are everything before the name, the old stem and (for a non-empty extension) a dot and the extension, whatever separators or . segments trailed the name; read back, the components are the old ones with the last replaced by the new name, so file name = stem[.ext] and the parent is unchanged, for every separator-free extension outside the known class D13 (refuted-witness lemma C13_d13_refuted); the truncation point is a UTF-8 character boundary and the result valid UTF-8 (no panic in the String twin). Windows and byte-equality with std::path::PathBuf::set_extension are decided on every explored case (oracle_c13, pair.c13 against real std).', NOTE_CORR),
     'C14': P(gen_c14, 'Proved in Coq (Props/C14.v): utf8_valid is the RFC 3629 chain of steps; validity is preserved by concatenation and by cutting next to an ASCII byte; Unix push/extend keep buffers valid; file name, stem and extension of a valid Unix path are valid; the set_extension truncation point is a character boundary and its result valid (no String::truncate panic). The faithfulness half (same bytes and outcome as the byte API) is decided by running every UTF-8 family next to the byte family on every explored case (same.*), the harness re-validating every &str it receives; conversions succeed exactly on valid UTF-8 (c14c).', NOTE_CORR),
-    'C15': P(gen_c15, 'PARTIAL. Proved: derive selects Windows exactly when the bytes start with a backslash or the grammar specification finds a prefix (Props/C15.v C15_derive); the dispatch table regenerated from src/typed/** and src/platform.rs on every run satisfies forwards-to-same-method / re-wraps-same-variant (translator obligations). The dispatch theorem is about a regex-extracted table, not about the semantics of match or of the impl_typed_fn! macro. NOT proved: that every typed / platform operation gives the same answer as the wrapped one -- in the model the typed layer is a two-arm match by definition; that sentence is decided by diffing every typed/platform family against the byte family of its encoding on every explored case, variant tags included.', NOTE_CORR, technique='machine-checked proof in Coq 8.16.1 for the part named in level_claimed.text; the remainder of the property is decided by differential correspondence on explored cases only (stated in level_note)'),
+    'C15': P(gen_c15, 'PARTIAL. Proved: derive selects Windows exactly when the bytes start with a backslash or the grammar specification finds a prefix (Props/C15.v C15_derive); the dispatch table regenerated from src/typed/** and src/platform.rs on every run satisfies forwards-to-same-method / re-wraps-same-variant (translator obligations). The dispatch theorem is about a regex-extracted table, not about the semantics of match or of the impl_typed_fn! macro. NOT proved: that every typed / platform operation gives the same answer as the wrapped one -- in the model the typed layer is a two-arm match by definition; that sentence is decided by diffing every typed/platform family against the byte family of its encoding on every explored case, variant tags included.', NOTE_CORR, technique='machine-checked proof in Coq 8.16.1 for the part named in level_claimed.text; the remainder of the property is decided by differential correspondence on explored cases only (stated in level_note)', level='translation_validation'),
     'C16': P(gen_unary('c16', fam_filter=lambda f: f in ('u', 'w', 'u8', 'w8', 'tu', 'tw', 't8u', 't8w', 'tbu', 'tbw', 'tb8u', 'tb8w')), 'Encoding conversion: model of with_encoding(_checked) tied to the code in both directions and for UTF-8/typed forms; the property itself (same bytes to the own encoding, kinds and names kept, prefix dropped, rootedness, checked = unchecked and valid, failure on forbidden bytes) is evaluated over the specifications by oracle_c16 on every explored case; D9, D12, D14 are the known classes. Proved for all inputs (Props/C16.v): same encoding = same bytes; a Unix path whose names are file names in both encodings converts to a Windows path with the same kinds and names; a prefix-free Windows path converts to a Unix path with the same kinds and names; the round trip is an equal path; the checked Unix->Windows conversion succeeds with exactly the unchecked result, which is valid, and fails whenever a name holds a byte Windows forbids; D9 D12 D14 as refuted-witness lemmas. Prefixed Windows sources and the Windows->Unix checked form are decided on explored cases only.', NOTE_CORR),
     'C17': P(gen_c17, 'Validity predicate vs the forbidden-byte tables (regenerated from the source), all 256 byte values in each position.', NOTE_CORR),
-    'C18': P(gen_c18, 'PARTIAL. Proved (Props/C18.v): the loops of the model terminate by themselves (fuel beyond the input length is irrelevant; every front step strictly shortens the input), the Windows parser never slices outside its input in any reachable state, pop truncates within bounds; C13 adds the set_extension character-boundary theorem. NOT proved: absence of panics in the Rust code itself (slice indexing, usize arithmetic, String::truncate are modelled only where a theorem names them), allocation failure, stack depth, run time. Those are decided by running every operation under catch_unwind and a watchdog, in release and debug builds, on the explored cases and on long inputs.', 'Panic-freedom of the implementation is observed, not proved; the model is total by construction, so model totality says nothing by itself. Trusted: Coq kernel, extraction, harness (catch_unwind, watchdog), driver.', impl_only_gen=gen_c18_impl_only, debug_build=True, oracle='nopanic', technique='machine-checked proof in Coq 8.16.1 for the part named in level_claimed.text; the remainder of the property is decided by differential correspondence on explored cases only (stated in level_note)'),
-    'C19': P(gen_c19, 'PARTIAL. Proved (Props/C19.v): utf8_valid is the RFC 3629 chain, the Gallina lossy decoding always yields valid UTF-8 and is the identity on valid input; to_str / to_string_lossy / Display of the implementation are compared with these definitions on every explored case. NOT proved: the round trips through Box / Rc / Arc / Cow / OsStr / std::path and the invariance of eq / ord / hash under clone and conversion -- in the model every wrapper is the identity on list byte, so a theorem there would be vacuous; they are unsafe pointer casts at run time. Those sentences are decided by the harness running every conversion chain on explored inputs.', 'The pointer-level conversions are runtime facts no Gallina model exhibits; evidence for them is differential only. Trusted: Coq kernel, extraction, harness, driver.', technique='machine-checked proof in Coq 8.16.1 for the part named in level_claimed.text; the remainder of the property is decided by differential correspondence on explored cases only (stated in level_note)'),
-    'C20': P(gen_c20, 'PARTIAL. Proved (Coq, vm_compute over a finite table regenerated from src/ on every run): every cfg / cfg_attr / cfg! occurrence the extractor finds is classified, and the only one that mentions feature std negatively is the crate-level no_std attribute, so no item has a body selected by the absence of std (obligation cfg_std_gates_positive; GenSpec.gates_ok_meaning states what the boolean means). NOT proved: that the two builds return identical results -- the Gallina model has no feature parameter, so no theorem can state it. That sentence is decided by building the harness with and without default features and diffing both transcripts against the one model and against each other on the explored cases.', 'The theorem is about a regex-extracted table (tools/translate.py is trusted; an unrecognised construct becomes PUnknown and fails the obligation). The behavioural claim is differential testing of two builds on explored cases, not a proof. Trusted: Coq kernel, translator, harness, driver.', builds=['std', ''], oracle='none', technique='machine-checked proof in Coq 8.16.1 for the part named in level_claimed.text; the remainder of the property is decided by differential correspondence on explored cases only (stated in level_note)'),
+    'C18': P(gen_c18, 'PARTIAL. Proved (Props/C18.v): the loops of the model terminate by themselves (fuel beyond the input length is irrelevant; every front step strictly shortens the input), the Windows parser never slices outside its input in any reachable state, pop truncates within bounds; C13 adds the set_extension character-boundary theorem. NOT proved: absence of panics in the Rust code itself (slice indexing, usize arithmetic, String::truncate are modelled only where a theorem names them), allocation failure, stack depth, run time. Those are decided by running every operation under catch_unwind and a watchdog, in release and debug builds, on the explored cases and on long inputs.', 'Panic-freedom of the implementation is observed, not proved; the model is total by construction, so model totality says nothing by itself. Trusted: Coq kernel, extraction, harness (catch_unwind, watchdog), driver.', impl_only_gen=gen_c18_impl_only, debug_build=True, oracle='nopanic', technique='machine-checked proof in Coq 8.16.1 for the part named in level_claimed.text; the remainder of the property is decided by differential correspondence on explored cases only (stated in level_note)', level='exploration'),
+    'C19': P(gen_c19, 'PARTIAL. Proved (Props/C19.v): utf8_valid is the RFC 3629 chain, the Gallina lossy decoding always yields valid UTF-8 and is the identity on valid input; to_str / to_string_lossy / Display of the implementation are compared with these definitions on every explored case. NOT proved: the round trips through Box / Rc / Arc / Cow / OsStr / std::path and the invariance of eq / ord / hash under clone and conversion -- in the model every wrapper is the identity on list byte, so a theorem there would be vacuous; they are unsafe pointer casts at run time. Those sentences are decided by the harness running every conversion chain on explored inputs.', 'The pointer-level conversions are runtime facts no Gallina model exhibits; evidence for them is differential only. Trusted: Coq kernel, extraction, harness, driver.', technique='machine-checked proof in Coq 8.16.1 for the part named in level_claimed.text; the remainder of the property is decided by differential correspondence on explored cases only (stated in level_note)', level='exploration'),
+    'C20': P(gen_c20, 'PARTIAL. Proved (Coq, vm_compute over a finite table regenerated from src/ on every run): every cfg / cfg_attr / cfg! occurrence the extractor finds is classified, and the only one that mentions feature std negatively is the crate-level no_std attribute, so no item has a body selected by the absence of std (obligation cfg_std_gates_positive; GenSpec.gates_ok_meaning states what the boolean means). NOT proved: that the two builds return identical results -- the Gallina model has no feature parameter, so no theorem can state it. That sentence is decided by building the harness with and without default features and diffing both transcripts against the one model and against each other on the explored cases.', 'The theorem is about a regex-extracted table (tools/translate.py is trusted; an unrecognised construct becomes PUnknown and fails the obligation). The behavioural claim is differential testing of two builds on explored cases, not a proof. Trusted: Coq kernel, translator, harness, driver.', builds=['std', ''], oracle='none', technique='machine-checked proof in Coq 8.16.1 for the part named in level_claimed.text; the remainder of the property is decided by differential correspondence on explored cases only (stated in level_note)', level='translation_validation'),
 }
